@@ -90,7 +90,7 @@ func runFakeClock(t *testing.T, c fcCase) (nontrivial bool, err error) {
 			step := fmt.Sprintf("op %d %s", n, opStr(o))
 			switch o.Kind {
 			case "enq":
-				it := &item{key: o.Key, due: clk.Now().Add(offsets[o.Off]), id: nextID}
+				it := &item{key: o.Key, due: dueAt(clk.Now(), o.Off), id: nextID}
 				nextID++
 				m := &mi{it: it}
 				items[it.id] = m
@@ -111,7 +111,7 @@ func runFakeClock(t *testing.T, c fcCase) (nontrivial bool, err error) {
 				var d time.Duration
 				var next time.Time
 				for _, m := range live {
-					if next.IsZero() || m.it.due.Before(next) {
+					if !m.it.due.Equal(never) && (next.IsZero() || m.it.due.Before(next)) {
 						next = m.it.due
 					}
 				}
@@ -156,8 +156,10 @@ func runFakeClock(t *testing.T, c fcCase) (nontrivial bool, err error) {
 		if !judge("final advance of 6h") {
 			return
 		}
-		if len(live) != 0 {
-			errs.Failf("harness: %d items still live after the final advance", len(live))
+		for _, m := range live {
+			if !m.it.due.Equal(never) {
+				errs.Failf("harness: item %d still live after the final advance", m.it.id)
+			}
 		}
 	})
 	if e := errs.Err(); e != nil {
